@@ -124,10 +124,15 @@ fn oracle(docs: &Docs, q: &[f32], k: usize, hits: &[VecSearchHit], sum: &mut Sum
     // complete reference: stable sort by (NaN last, f32 distance, index position)
     let mut refv: Vec<(f32, usize, u64)> = all.iter().enumerate().map(|(i, x)| (x.1, i, x.0)).collect();
     refv.sort_by(|a, b| a.0.is_nan().cmp(&b.0.is_nan()).then(a.0.partial_cmp(&b.0).unwrap_or(std::cmp::Ordering::Equal)).then(a.1.cmp(&b.1)));
-    let want: Vec<u64> = refv.iter().take(k).map(|x| x.2).collect();
-    let got: Vec<u64> = hits.iter().map(|h| h.frame_id).collect();
+    // the sequence of DISTANCES of the k nearest is unique (which of several equidistant frames is returned, and in
+    // which order, is not part of the property: compared id by id against the model only)
+    let nb = |x: f32| if x.is_nan() { 0x7fc0_0000u32 } else { x.to_bits() };
+    let want: Vec<u32> = refv.iter().take(k).map(|x| nb(x.0)).collect();
+    let got: Vec<u32> = dists.iter().map(|d| nb(*d)).collect();
     if want != got && !q.is_empty() {
-        fail(sum, "differs-from-stable-reference-ranking", format!("got {got:?} want {want:?}"));
+        let ids: Vec<u64> = hits.iter().map(|h| h.frame_id).collect();
+        let want_ids: Vec<u64> = refv.iter().take(k).map(|x| x.2).collect();
+        fail(sum, "not-the-k-nearest-distances", format!("got ids {ids:?}, the k nearest (ties in index order) are {want_ids:?}"));
     }
     if refv.windows(2).take(k.saturating_sub(1)).any(|w| w[0].0 == w[1].0) { sum.branch("tie-inside-topk"); }
     if k > 0 && k < m && refv[k - 1].0 == refv[k].0 { sum.branch("tie-at-cutoff"); }
@@ -246,22 +251,36 @@ fn show_result(r: &Result<Vec<VecSearchHit>, MemvidError>) -> (String, String) {
     }
 }
 
+type SearchResults = Vec<Result<Vec<VecSearchHit>, MemvidError>>;
+/// the state after one commit: (active embedded frames in id order, index exists, results, results after reopen)
+type Epoch = (Docs, bool, SearchResults, SearchResults);
+
 fn run_file_case(c: &FileCase, drv: &mut Driver, use_model: bool, sum: &mut Summary, verbose: bool) {
     let case = fc_json(c);
     let dir = tempfile::tempdir().expect("tempdir");
     let path = dir.path().join("c13.mv2");
     let r = guarded({
         let c = c.clone(); let path = path.clone();
-        move || -> Result<(Vec<Option<u64>>, Docs, bool, Vec<Result<Vec<VecSearchHit>, MemvidError>>, Vec<Result<Vec<VecSearchHit>, MemvidError>>), String> {
+        move || -> Result<Vec<Epoch>, String> {
             let mut mem = Memvid::create(&path).map_err(|e| format!("create: {e}"))?;
             if c.enable_first { mem.enable_vec().map_err(|e| format!("enable_vec: {e}"))?; }
-            let mut frame_of: Vec<Option<u64>> = Vec::new();
+            let mut frame_of: Vec<u64> = Vec::new();
             let mut active: Docs = Vec::new();
             let mut next = 0usize;
-            let mut any_commit_with_vec = false;
+            let mut index_exists = false;
+            let mut epochs: Vec<Epoch> = Vec::new();
+            // queries before and after drop + open; the reopened handle carries on
+            let snapshot = |mem: Memvid, active: &Docs, index_exists: bool, epochs: &mut Vec<Epoch>| -> Result<Memvid, String> {
+                let mut mem = mem;
+                let r1: SearchResults = c.queries.iter().map(|(q, k)| mem.search_vec(q, *k)).collect();
+                drop(mem);
+                let mut mem2 = Memvid::open(&path).map_err(|e| format!("open: {e}"))?;
+                let r2: SearchResults = c.queries.iter().map(|(q, k)| mem2.search_vec(q, *k)).collect();
+                epochs.push((active.clone(), index_exists, r1, r2));
+                Ok(mem2)
+            };
             for (ci, upto) in c.commits.iter().enumerate() {
                 while next < *upto && next < c.embs.len() {
-                    let before = next as u64; // one frame per put, ids in put order (checked after the commit)
                     let payload = format!("document number {next} about topic {}", next * 7 + 1);
                     // generated cases switch off the per-put extras (instant Tantivy commit, auto-tagging, date and
                     // triplet extraction: ~1 s per put in a debug build); the embedding path is the same put_internal
@@ -270,7 +289,8 @@ fn run_file_case(c: &FileCase, drv: &mut Driver, use_model: bool, sum: &mut Summ
                         mem.put_with_embedding_and_options(payload.as_bytes(), c.embs[next].clone(), opts)
                     };
                     match res {
-                        Ok(_) => { frame_of.push(Some(before)); if !c.embs[next].is_empty() { active.push((before, c.embs[next].clone())); } }
+                        // one frame per put, ids in put order (checked after the commit)
+                        Ok(_) => { frame_of.push(next as u64); if !c.embs[next].is_empty() { active.push((next as u64, c.embs[next].clone())); } }
                         Err(e) => return Err(format!("put_with_embedding #{next}: {e}")),
                     }
                     next += 1;
@@ -279,11 +299,12 @@ fn run_file_case(c: &FileCase, drv: &mut Driver, use_model: bool, sum: &mut Summ
                 let fc = mem.stats().map_err(|e| format!("stats: {e}"))?.frame_count;
                 if fc != next as u64 { return Err(format!("harness assumption broken: {next} puts but frame_count {fc}")); }
                 // the index object exists once an embedding has been committed (enable_vec alone does not create it)
-                if !active.is_empty() || any_commit_with_vec { any_commit_with_vec = true; }
+                if !active.is_empty() { index_exists = true; }
+                mem = snapshot(mem, &active, index_exists, &mut epochs)?;
                 let mut deleted_any = false;
                 for (after, ord) in &c.deletes {
                     if *after == ci {
-                        if let Some(Some(fid)) = frame_of.get(*ord) {
+                        if let Some(fid) = frame_of.get(*ord) {
                             if active.iter().any(|(id, _)| id == fid) {
                                 mem.delete_frame(*fid).map_err(|e| format!("delete_frame {fid}: {e}"))?;
                                 active.retain(|(id, _)| id != fid);
@@ -292,67 +313,69 @@ fn run_file_case(c: &FileCase, drv: &mut Driver, use_model: bool, sum: &mut Summ
                         }
                     }
                 }
-                if deleted_any { mem.commit().map_err(|e| format!("commit after delete: {e}"))?; }
+                if deleted_any {
+                    mem.commit().map_err(|e| format!("commit after delete: {e}"))?;
+                    mem = snapshot(mem, &active, index_exists, &mut epochs)?;
+                }
             }
-            let r1: Vec<_> = c.queries.iter().map(|(q, k)| mem.search_vec(q, *k)).collect();
-            drop(mem);
-            let mut mem2 = Memvid::open(&path).map_err(|e| format!("open: {e}"))?;
-            let r2: Vec<_> = c.queries.iter().map(|(q, k)| mem2.search_vec(q, *k)).collect();
-            Ok((frame_of, active, any_commit_with_vec, r1, r2))
+            Ok(epochs)
         }
     });
-    let (active, vec_committed, r1, r2) = match r {
-        Ok(Ok((_, a, v, r1, r2))) => (a, v, r1, r2),
+    let epochs = match r {
+        Ok(Ok(e)) => e,
         Ok(Err(e)) => { sum.oracle_violation("file-operation-failed", &e, case); sum.case("F|fail", false, || json!({})); return; }
-        Err(p) => { sum.oracle_violation("file-operation-panicked", &p, case); sum.case("F|panic", false, || json!({})); return; }
+        Err(p) => { sum.oracle_violation(if p.contains("total order") { "search-panics-on-nan-distance" } else { "file-operation-panicked" }, &p, case); sum.case("F|panic", false, || json!({})); return; }
     };
-    let dim = active.first().map(|(_, e)| e.len()).unwrap_or(0);
-    let m = active.len();
     sum.branch(if c.commits.len() > 1 { "multi-commit" } else { "single-commit" });
     if !c.deletes.is_empty() { sum.branch("with-deletes"); }
-    let mut canon = format!("F|{}|", docs_wire(&active));
-    for (i, (q, k)) in c.queries.iter().enumerate() {
-        let (s1, h1) = show_result(&r1[i]);
-        let (s2, h2) = show_result(&r2[i]);
-        let qcase = json!({"level": "file", "embs": case["embs"], "commits": case["commits"], "deletes": case["deletes"], "enable_first": c.enable_first, "queries": [[vhex(q), k]]});
-        if verbose { println!("query {i}: q={q:?} k={k}\n  impl        : {s1} [{h1}]\n  after reopen: {s2} [{h2}]"); }
-        canon.push_str(&format!("{}:{k}:{s1};", vhex(q)));
-        // reopen
-        if s1 != s2 || h1 != h2 {
-            sum.oracle_violation("results-differ-after-reopen", &format!("before: {s1} [{h1}]  after: {s2} [{h2}]"), qcase.clone());
-        } else { sum.branch("reopen-identical"); }
-        // dimension clause
-        if dim > 0 && q.len() != dim {
-            sum.branch("query-wrong-dimension");
-            let want = format!("err dim {dim} {}", q.len());
-            if s1 != want { sum.oracle_violation("wrong-dimension-not-rejected", &format!("got {s1}, want {want}"), qcase.clone()); }
-        } else {
-            match &r1[i] {
-                Ok(hits) => {
-                    if m == 0 { sum.branch("empty-index-ok"); }
-                    oracle(&active, q, *k, hits, sum, &qcase, "file");
-                    sum.branch(if *k < m { "k-lt-m" } else if *k == m { "k-eq-m" } else { "k-gt-m" });
+    for (ei, (active, index_exists, r1, r2)) in epochs.iter().enumerate() {
+        let dim = active.first().map(|(_, e)| e.len()).unwrap_or(0);
+        let m = active.len();
+        let mut canon = format!("F|{}|", docs_wire(active));
+        for (i, (q, k)) in c.queries.iter().enumerate() {
+            let (s1, h1) = show_result(&r1[i]);
+            let (s2, h2) = show_result(&r2[i]);
+            let qcase = json!({"level": "file", "embs": case["embs"], "commits": case["commits"], "deletes": case["deletes"], "enable_first": c.enable_first,
+                               "queries": [[vhex(q), k]], "epoch": ei});
+            if verbose { println!("epoch {ei} (m={m}) query {i}: q={q:?} k={k}\n  impl        : {s1} [{h1}]\n  after reopen: {s2} [{h2}]"); }
+            canon.push_str(&format!("{}:{k}:{s1};", vhex(q)));
+            // reopen
+            if s1 != s2 || h1 != h2 {
+                sum.oracle_violation("results-differ-after-reopen", &format!("before: {s1} [{h1}]  after: {s2} [{h2}]"), qcase.clone());
+            } else { sum.branch("reopen-identical"); }
+            // dimension clause
+            if dim > 0 && q.len() != dim {
+                sum.branch("query-wrong-dimension");
+                let want = format!("err dim {dim} {}", q.len());
+                if s1 != want { sum.oracle_violation("wrong-dimension-not-rejected", &format!("got {s1}, want {want}"), qcase.clone()); }
+            } else {
+                match &r1[i] {
+                    Ok(hits) => {
+                        if m == 0 { sum.branch("empty-index-ok"); }
+                        oracle(active, q, *k, hits, sum, &qcase, "file");
+                        sum.branch(if *k < m { "k-lt-m" } else if *k == m { "k-eq-m" } else { "k-gt-m" });
+                    }
+                    Err(MemvidError::VecNotEnabled) if m == 0 && !*index_exists => { sum.branch("no-index-error"); }
+                    Err(e) => sum.oracle_violation("search-vec-fails", &e.to_string(), qcase.clone()),
                 }
-                Err(MemvidError::VecNotEnabled) if m == 0 => { sum.branch("no-index-error"); }
-                Err(e) => sum.oracle_violation("search-vec-fails", &e.to_string(), qcase.clone()),
+            }
+            if use_model {
+                // abstract state: the manifest dimension is that of the first active document (0 -> none);
+                // the index exists iff an embedding was ever committed
+                let st_docs = if *index_exists { docs_wire(active) } else { "none".into() };
+                let enabled = c.enable_first || !c.embs.iter().all(|e| e.is_empty());
+                let comparable = q.len() != dim || m == 0 || order_comparable(active, q, all_small_ints(active, q));
+                if comparable {
+                    let line = format!("searchvec {} {} {} {} {}", if enabled { 1 } else { 0 }, if dim > 0 { dim.to_string() } else { "-".into() }, st_docs, vhex(q), k);
+                    let mo = drv.ask(&line);
+                    if verbose { println!("  model       : {mo}"); }
+                    sum.branch("model-compared");
+                    if mo != s1 { sum.disagreement("Memvid::search_vec vs model searchVec", qcase.clone(), &mo, &s1); }
+                } else { sum.branch("model-skipped-rounding-sensitive-order"); }
             }
         }
-        if use_model {
-            // abstract state: the manifest dimension is that of the first active document (0 -> none);
-            // the index exists iff an embedding was ever committed
-            let st_docs = if vec_committed { docs_wire(&active) } else { "none".into() };
-            let enabled = c.enable_first || !c.embs.iter().all(|e| e.is_empty());
-            let comparable = q.len() != dim || m == 0 || order_comparable(&active, q, all_small_ints(&active, q));
-            if comparable {
-                let line = format!("searchvec {} {} {} {} {}", if enabled { 1 } else { 0 }, if dim > 0 { dim.to_string() } else { "-".into() }, st_docs, vhex(q), k);
-                let mo = drv.ask(&line);
-                if verbose { println!("  model       : {mo}"); }
-                sum.branch("model-compared");
-                if mo != s1 { sum.disagreement("Memvid::search_vec vs model searchVec", qcase.clone(), &mo, &s1); }
-            } else { sum.branch("model-skipped-rounding-sensitive-order"); }
-        }
+        sum.case(&canon, m > 0, || json!({"level": "file", "epoch": ei, "m": m, "dim": dim, "commits": c.commits.len(), "deletes": c.deletes.len(), "queries": c.queries.len()}));
     }
-    sum.case(&canon, m > 0, || json!({"level": "file", "m": m, "dim": dim, "commits": c.commits.len(), "deletes": c.deletes.len(), "queries": c.queries.len()}));
 }
 
 // ------------------------------------------------------------------------------------------------
@@ -457,6 +480,26 @@ fn main() {
     sum.expect_branches(&["k-lt-m", "k-eq-m", "k-gt-m", "tie-inside-topk", "tie-at-cutoff", "query-wrong-dimension", "reopen-identical",
         "multi-commit", "with-deletes", "model-compared", "model-skipped-rounding-sensitive-order", "empty-query", "codec-roundtrip",
         "codec-truncated", "codec-extended", "nan-distance", "nan-just-below-cutoff", "empty-index-ok"]);
+    if args.mode == "probe" {
+        use std::time::Instant;
+        let dir = tempfile::tempdir().unwrap();
+        let path = dir.path().join("p.mv2");
+        let t = Instant::now(); let mut mem = Memvid::create(&path).unwrap(); println!("create {:?}", t.elapsed());
+        let t = Instant::now();
+        for i in 0..10 { let opts = PutOptions { instant_index: false, auto_tag: false, extract_dates: false, extract_triplets: false, ..Default::default() };
+            mem.put_with_embedding_and_options(format!("document number {i}").as_bytes(), vec![i as f32, 1.0], opts).unwrap(); }
+        println!("10 light puts {:?}", t.elapsed());
+        let t = Instant::now(); mem.commit().unwrap(); println!("commit {:?}", t.elapsed());
+        let t = Instant::now();
+        for i in 0..3 { mem.put_with_embedding(format!("document default {i}").as_bytes(), vec![i as f32, 2.0]).unwrap(); }
+        println!("3 default puts {:?}", t.elapsed());
+        let t = Instant::now(); mem.commit().unwrap(); println!("commit2 {:?}", t.elapsed());
+        let t = Instant::now(); mem.delete_frame(2).unwrap(); mem.commit().unwrap(); println!("delete+commit {:?}", t.elapsed());
+        let t = Instant::now(); drop(mem); println!("drop {:?}", t.elapsed());
+        let t = Instant::now(); let mut m2 = Memvid::open(&path).unwrap(); println!("open {:?}", t.elapsed());
+        let t = Instant::now(); let h = m2.search_vec(&[0.0, 1.0], 3).unwrap(); println!("search {:?} {}", t.elapsed(), h.len());
+        return;
+    }
     if args.mode == "replay" {
         let case = load_replay(args.replay_file.as_ref().expect("replay file"));
         let input = case.get("input").unwrap_or(&case);
@@ -484,6 +527,10 @@ fn main() {
     let mut rng = Rng::new(args.seed);
 
     // ---- fixed corpus
+    // witness of the NaN defect through the real API: embeddings 7, 8, NaN, 1 (dimension 1), query 0, k = 1:
+    // the unrepaired comparator returns frame 0 (distance 7) although frame 3 is at distance 1
+    run_file_case(&FileCase { embs: vec![vec![7.0], vec![8.0], vec![f32::NAN], vec![1.0]], commits: vec![4], deletes: vec![], enable_first: false,
+        queries: vec![(vec![0.0], 1), (vec![0.0], 4)] }, &mut drv, use_model, &mut sum, false);
     let unit = |i: usize, d: usize| -> Vec<f32> { (0..d).map(|j| if i == j { 1.0 } else { 0.0 }).collect() };
     run_file_case(&FileCase { embs: vec![vec![0.0, 1.0], vec![1.0, 0.0]], commits: vec![2], deletes: vec![], enable_first: true,
         queries: vec![(vec![0.0, 1.0], 5), (vec![1.0, 0.0], 5), (vec![1.0], 5), (vec![1.0, 0.0, 0.0], 1), (vec![], 3)] }, &mut drv, use_model, &mut sum, false);
@@ -498,10 +545,9 @@ fn main() {
     {
         let mut embs: Vec<Vec<f32>> = (0..40).map(|i| vec![i as f32, 1.0]).collect();
         embs[7][0] = f32::NAN;
-        run_file_case(&FileCase { embs: embs.clone(), commits: vec![40], deletes: vec![], enable_first: false,
-            queries: vec![(vec![3.0, 1.0], 40), (vec![3.0, 1.0], 8), (vec![0.0, 1.0], 5), (vec![f32::NAN, 1.0], 3)] }, &mut drv, use_model, &mut sum, false);
         let docs: Docs = embs.into_iter().enumerate().map(|(i, e)| (i as u64, e)).collect();
         run_index_case(&docs, &[3.0, 1.0], 8, &mut drv, use_model, &mut sum, false);
+        run_index_case(&docs, &[3.0, 1.0], 40, &mut drv, use_model, &mut sum, false);
     }
     run_index_case(&vec![(1, vec![7.0]), (2, vec![8.0]), (3, vec![f32::NAN]), (4, vec![1.0])], &[0.0], 1, &mut drv, use_model, &mut sum, false);
     run_index_case(&vec![(1, vec![1.0, 2.0]), (2, vec![1.0])], &[0.0, 0.0], 1, &mut drv, use_model, &mut sum, false);
@@ -529,7 +575,7 @@ fn main() {
         }
     }
     // ---- file level
-    let n_file = args.extra.get("n-file").and_then(|s| s.parse().ok()).unwrap_or(if args.thorough { 400 } else { 24 });
+    let n_file = args.extra.get("n-file").and_then(|s| s.parse().ok()).unwrap_or(if args.thorough { 300 } else { 10 });
     for _ in 0..n_file {
         let c = gen_file_case(&mut rng, args.thorough);
         run_file_case(&c, &mut drv, use_model, &mut sum, false);
